@@ -14,7 +14,10 @@ MCODE = {m: i for i, m in enumerate(METHS)}
 U = 10 ** 11
 
 AMOUNTS = [1, 1000, 5 * 10 ** 9, 10 ** 10, 25 * 10 ** 9, 5 * 10 ** 10, U, 2 * U, 3 * U, 15 * 10 ** 10, 123456789012, 10 ** 20]
-PRICES = [1000, U // 100, U, 10 * U, 10 * U, 20 * U, 50 * U, 50 * U, 1234567 * 10 ** 6, 10 ** 15, 10 ** 18]
+# huge many-digit amounts / prices: products need more than 31 significant digits, so every decimal rounding step of
+# the fiat derivations is exercised (a difference of two rounded products is not the rounded product of the difference)
+BIG_AMOUNTS = [10 ** 20, 98765432109876543211, 31415926535897932384]
+PRICES = [1000, U // 100, U, 10 * U, 10 * U, 20 * U, 50 * U, 50 * U, 1234567 * 10 ** 6, 10 ** 15, 10 ** 18, 123456789012345678, 987654321]
 OFFSETS = [0, 3600, -3600, 50400, -43200, 19800]
 
 
@@ -83,7 +86,7 @@ def gen_history(rng, n_max=14, overdraw_pct=0, method=None, accounts=None, earn_
         if not funded or r < 40:
             acct = (rng.below(ne), rng.below(nh))
             ty = rng.choice(EARN) if rng.chance(earn_pct) else rng.choice(IN_NONEARN if rng.chance(15) else ["BUY"])
-            amt = rng.choice(AMOUNTS[:-1]) if not rng.chance(4) else AMOUNTS[-1]
+            amt = rng.choice(AMOUNTS[:-1]) if not rng.chance(6) else rng.choice(BIG_AMOUNTS)
             if rng.chance(25):
                 amt = rng.range(1, 3 * U)
             row = {"ts": ts, "exch": acct[0], "holder": acct[1], "type": ty, "spot": rng.choice(PRICES), "crypto_in": amt}
